@@ -27,7 +27,63 @@ class CaseTimeout(BaseException):
     pass
 
 
-def mutate(data: bytes, op: str, args) -> bytes:
+NUM_RX = rb"(?<![\w.])-?\d+(?:\.\d+)?(?:[eE][-+]?\d+)?(?![\w.])"
+QINT_RX = rb'(?<=")\d+(?=")'
+IDATTR_RX = rb'(?i)(?<=id=")\d+(?=")'  # id="..", objectid="..", pid=".." ...
+REF_RX = rb"[\w\-./]*\w\.(?:mtl|png|jpe?g|bin|gltf|obj|stl|ply|xml|3DRep)\b"
+
+
+def tokens_of(data, kind):
+    import re
+
+    rx = {"num": NUM_RX, "qint": QINT_RX, "ref": REF_RX, "idattr": IDATTR_RX}[kind]
+    return list(re.finditer(rx, data[: (1 << 20) if kind in ("idattr", "ref") else 8192]))
+
+
+def split_json(data):
+    """-> (document, rebuild(document) -> bytes) for a .gltf text or a .glb container, else None."""
+    import struct
+
+    try:
+        if data[:4] == b"glTF" and len(data) >= 20:
+            jlen, jtype = struct.unpack("<II", data[12:20])
+            if jtype != 0x4E4F534A or 20 + jlen > len(data):
+                return None
+            doc = json.loads(data[20: 20 + jlen].decode("utf-8"))
+            rest = data[20 + jlen:]
+
+            def rebuild(d):
+                body = json.dumps(d, separators=(",", ":")).encode("utf-8")
+                body += b" " * (-len(body) % 4)
+                total = 12 + 8 + len(body) + len(rest)
+                return data[:8] + struct.pack("<I", total) + struct.pack("<II", len(body), 0x4E4F534A) + body + rest
+
+            return doc, rebuild
+        doc = json.loads(data.decode("utf-8"))
+        if not isinstance(doc, (dict, list)):
+            return None
+        return doc, (lambda d: json.dumps(d).encode("utf-8"))
+    except Exception:
+        return None
+
+
+def json_nodes(doc, limit=4000):
+    """Every (holder, key) slot of the document, depth first, in document order."""
+    out = []
+    stack = [doc]
+    while stack and len(out) < limit:
+        cur = stack.pop()
+        items = list(cur.items()) if isinstance(cur, dict) else list(enumerate(cur))
+        kids = []
+        for k, v in items:
+            out.append((cur, k))
+            if isinstance(v, (dict, list)):
+                kids.append(v)
+        stack.extend(reversed(kids))
+    return out
+
+
+def mutate(data: bytes, op: str, args, self_name=None) -> bytes:
     """Deterministic fault operators (G-bytes)."""
     n = len(data)
     if op == "valid":
@@ -76,6 +132,75 @@ def mutate(data: bytes, op: str, args) -> bytes:
             return data
         m = toks[k]
         return data[: m.start()] + text.encode() + data[m.end():]
+    if op == "tokcopy":  # token k takes the text of token j (ids pointing at other ids / at themselves)
+        kind, k, j = args
+        toks = tokens_of(data, kind)
+        if k >= len(toks) or j >= len(toks):
+            return data
+        m = toks[k]
+        return data[: m.start()] + toks[j].group() + data[m.end():]
+    if op == "ref":  # the k-th asset reference (file name / uri) replaced by another target
+        k, text = args
+        toks = tokens_of(data, "ref")
+        if k >= len(toks):
+            return data
+        m = toks[k]
+        if text == "@self":
+            text = self_name or "self"
+        return data[: m.start()] + text.encode() + data[m.end():]
+    if op == "zipinner":  # a fault applied to one member of a zip container (3mf, 3dxml, zip), re-packed
+        mi, iop, iargs = args
+        import zipfile
+
+        zin = zipfile.ZipFile(io.BytesIO(data))
+        infos = zin.infolist()
+        out = io.BytesIO()
+        with zipfile.ZipFile(out, "w", zipfile.ZIP_DEFLATED) as zout:
+            for i, inf in enumerate(infos):
+                payload = zin.read(inf.filename)
+                if i == mi:
+                    payload = mutate(payload, iop, iargs, self_name=self_name)
+                zout.writestr(inf.filename, payload)
+        return out.getvalue()
+    if op == "json":  # structural fault in the JSON document of a gltf / glb file
+        idx, action = args
+        parts = split_json(data)
+        if parts is None:
+            return data
+        doc, rebuild = parts
+        nodes = json_nodes(doc)
+        if idx >= len(nodes):
+            return data
+        holder, key = nodes[idx]
+        cur = holder[key]
+        if action == "del":
+            if isinstance(holder, list):
+                holder.pop(key)
+            else:
+                del holder[key]
+        elif action == "big":
+            if isinstance(cur, bool) or not isinstance(cur, (int, float)):
+                return data
+            holder[key] = 10**10
+        elif action == "neg":
+            if isinstance(cur, bool) or not isinstance(cur, (int, float)):
+                return data
+            holder[key] = -1
+        elif action == "inc":
+            if isinstance(cur, bool) or not isinstance(cur, int):
+                return data
+            holder[key] = cur + 1
+        elif action == "null":
+            holder[key] = None
+        elif action == "str":
+            holder[key] = "x"
+        elif action == "list":
+            holder[key] = []
+        elif action == "dict":
+            holder[key] = {}
+        else:
+            raise ValueError(action)
+        return rebuild(doc)
     if op == "raw":  # arbitrary bytes given as hex
         return bytes.fromhex(args[0])
     if op == "splice":  # args: hex of other data, cut points
@@ -217,7 +342,7 @@ def main():
         cid, sidx, op, args, entry, via = case[:6]
         ext = job["seeds"][sidx]["ext"]
         try:
-            data = mutate(seeds[sidx], op, args)
+            data = mutate(seeds[sidx], op, args, self_name="case_%d.%s" % (os.getpid(), ext))
         except Exception as e:
             out.write(json.dumps({"id": cid, "phase": "end", "outcome": "harness_error", "detail": repr(e)}) + "\n")
             continue
@@ -226,7 +351,7 @@ def main():
         as_cap = vm_size() + max(job["as_base"], job["as_per_byte"] * n)
         out.write(json.dumps({"id": cid, "phase": "start", "len": n}) + "\n")
         path = None
-        if via == "path":
+        if via in ("path", "path_ft", "pathlib"):
             path = os.path.join(tmpdir, "case_%d.%s" % (os.getpid(), ext))
             with mon._orig_open(path, "wb") as f:
                 f.write(data)
@@ -244,6 +369,12 @@ def main():
             fn = entries[entry]
             if via == "path":
                 res = fn(path)
+            elif via == "path_ft":  # by name with the type spelled out
+                res = fn(path, file_type=ext)
+            elif via == "pathlib":
+                import pathlib
+
+                res = fn(pathlib.Path(path))
             else:
                 res = fn(file_obj=io.BytesIO(data), file_type=ext)
             outcome, detail = "geometry", describe(res)
